@@ -24,10 +24,44 @@ def sh(cmd, **kw):
     return subprocess.run(cmd, capture_output=True, text=True, **kw)
 
 
+def run_check(prop, wt):
+    t0 = time.time()
+    cr = sh([os.path.join(VERIF, "check"), prop, "--tier", "quick", "--no-evidence"], cwd=VERIF, env=dict(os.environ, VERIF_REPO=wt))
+    viols = re.findall(r"violation clause=(\S+) site=(\S+)", cr.stdout)
+    out = {"cmd": f"VERIF_REPO=<patched worktree> ./check {prop} --tier quick", "exit": cr.returncode,
+           "detected": cr.returncode == 1, "clauses": sorted({c for c, _ in viols})[:6], "sites": sorted({s for _, s in viols})[:5],
+           "last_line": cr.stdout.strip().splitlines()[-1:] if cr.stdout else [], "wall_s": round(time.time() - t0)}
+    if cr.returncode == 2:
+        out["harness_tail"] = cr.stdout[-1500:]
+    return out
+
+
+def check_only(prop, sid):
+    out = os.path.join(VERIF, "seeded", sid)
+    meta = json.load(open(os.path.join(out, "meta.json")))
+    wt = f"/tmp/ingest-{os.getpid()}-{sid}"
+    sh(["git", "-C", "/repo", "worktree", "add", "--detach", wt, "HEAD"])
+    try:
+        ap = sh(["git", "-C", wt, "apply", os.path.join(out, "patch.diff")])
+        assert ap.returncode == 0, ap.stderr
+        meta["check"] = run_check(prop, wt)
+    finally:
+        sh(["git", "-C", "/repo", "worktree", "remove", "--force", wt])
+        shutil.rmtree(wt, ignore_errors=True)
+        shutil.rmtree(os.path.join(VERIF, "replays"), ignore_errors=True)
+    with open(os.path.join(out, "meta.json"), "w") as f:
+        json.dump(meta, f, indent=1)
+    c = meta["check"]
+    print(sid, "check", c["detected"], c["clauses"], "exit", c["exit"], c["last_line"])
+    return 0
+
+
 def main():
     prop, src, sid = sys.argv[1], sys.argv[2], sys.argv[3]
     full = "--full-tests" in sys.argv
     nocheck = "--no-check" in sys.argv
+    if "--check-only" in sys.argv:
+        return check_only(prop, sid)
     wt = f"/tmp/ingest-{os.getpid()}-{sid}"
     sh(["git", "-C", "/repo", "worktree", "add", "--detach", wt, "HEAD"])
     meta = {"id": sid, "property": prop, "source": "independent sub-agent given only the property text and a scratch worktree"}
